@@ -28,6 +28,7 @@ from vp import c02_num as N
 from vp import c02_coq
 
 TP_KEY = "C02:core.geometry.line.two_point_function:float-precision"
+SOLVE_KEY = "C02:solve-after-substitution:float-precision"
 
 STATIC = ["quantity_is_si_value", "calc_result_unit_independent", "rounded_up_integer_spec", "rounded_up_integer_unique",
     "magnitude_of_solution", "vector_forms_mutual_inverse"]
@@ -243,7 +244,14 @@ def work(idx):
         # functions built on core.geometry.line.two_point_function lose float precision inside SymPy's geometry
         # (known finding, see design note): their decisive tie uses exact rational arguments
         uses_tp = "two_point_function" in inspect.unwrap(item.fn).__code__.co_names
+        argsyms = {s for a in ex.args for s in a.syms}
+        # ... and functions that call solve() on an equation that already contains the argument values: SymPy's solve
+        # recasts Floats as Rationals with nsimplify (1.0000000225 -> 1), a second float-precision mechanism
+        solve_after_subs = any(isinstance(eq, sympy.Basic) and (eq.free_symbols & argsyms)
+            for b in ex.branches for eq, _t in b.solve_log) or "dsolve" in inspect.unwrap(item.fn).__code__.co_names
         out["uses_two_point_function"] = uses_tp
+        out["solve_after_substitution"] = solve_after_subs and not uses_tp
+        uses_tp = uses_tp or solve_after_subs      # both classes get exact rational tuples as their decisive tie
         plan = N.leaf_plan(ex)
         unknown = [s for s, (d, how, _g) in plan.items() if d is None and how in ("quantity", "either")]
         cands = [None] + ([getattr(N.U, c) for c in N.CANDIDATE_DIMS] if unknown else [])
@@ -438,10 +446,13 @@ def run(ctx):
         if not tie.get("bad"):
             n_tied += 1
         bad = tie.get("bad", [])
-        if r.get("uses_two_point_function") and bad and not tie.get("bad_exact"):
+        if (r.get("uses_two_point_function") or r.get("solve_after_substitution")) and bad and not tie.get("bad_exact"):
             c = bad[0]
-            ctx.violation(TP_KEY,
-                "calculation functions built on core.geometry.line.two_point_function lose floating-point precision "
+            is_tp = r.get("uses_two_point_function")
+            ctx.violation(TP_KEY if is_tp else SOLVE_KEY,
+                ("calculation functions built on core.geometry.line.two_point_function lose floating-point precision " if is_tp
+                 else "calculation functions that call solve() after substituting the argument values lose floating-point "
+                 "precision (solve recasts Floats with nsimplify) ") +
                 f"(first seen: {r['key']} returns {c.get('result_si')} where the law gives {c.get('closed_form_value')}); "
                 "with exact rational arguments the same function agrees with its law",
                 {"kind": "law-residual", "item": r["key"], "input": c.get("call"), "si_values": c["env"],
@@ -494,7 +505,9 @@ def run(ctx):
     cov["allowlist_drift"] = {"unextracted_now_extractable": stale_unex, "open_lemmas_now_provable": now_provable}
     cov["numeric_tie"] = {"functions_tied": n_tied, "functions_untied": n_untied, "real_calls": n_calls,
         "tuples_per_function": _CFG["tuples"], "units_used": sorted(units_seen), "untied": untied[:40]}
-    cov["two_point_function_precision_findings"] = tp_items
+    cov["float_precision_findings"] = tp_items
+    cov["functions_with_exact_rational_tie"] = sorted(r["key"] for r in extracted
+        if r.get("uses_two_point_function") or r.get("solve_after_substitution"))
     cov["exceptions"] = {lm["name"]: {"kind": lm["exception"], "wording_found": lm.get("exception_wording_found", [])}
         for r in extracted for lm in r.get("lemmas", []) if lm["exception"]}
     cov["kinds"] = {}
